@@ -131,6 +131,29 @@ def error_then_interrupt_cases(tier, seed):
                 yield base
 
 
+def reentrant_cases(tier, seed):
+    """a pooled call nested inside another one on the same PooledClient (a serializer that consults the cache), the
+    interruption striking at every socket event of the nested exchange: both pool slots have to come back"""
+    from props import c09
+    for mx in (2, None):
+        for when, outer in (("serialize", {"op": "set", "key": "k", "value": b"v", "noreply": False}), ("deserialize", {"op": "get", "key": "t"}),
+                            ("deserialize", {"op": "get_many", "keys": ["t", "n"]})):
+            for inner_op in ("get", "set", "version"):
+                for ev_kind, nths in (("recv", (0, 1, 2)), ("sendall", (0, 1)), ("connect", (0, 1)), ("close", (0,))):
+                    for nth in nths:
+                        for f in faultlab.faults_for_event(ev_kind, nth, True):
+                            for warm in (0, 1, 2):
+                                for ie in (False, True):
+                                    yield {"max_pool_size": mx, "when": when, "outer": outer, "inner_op": inner_op, "inner_fault": f, "swallow": False,
+                                           "ignore_exc": ie, "warm": warm, "raw_fault": True}
+
+
+def check_reentrant(case):
+    from props import c09
+    nt, labels = c09.check_reentrant(case, interruption=EXC)
+    return nt, ["interruption"] + labels
+
+
 def history_strategy(tier):
     return c01.history_strategy(tier, interrupts=True)
 
@@ -139,6 +162,7 @@ PARTS = [
     Part("interruption-sweep", "enum", check, cases=sweep_cases, exhaustive=True),
     Part("idle-expiry-interruptions", "enum", check, cases=idle_sweep_cases, exhaustive=True),
     Part("input-error-then-interruption", "enum", check, cases=error_then_interrupt_cases, exhaustive=True),
+    Part("re-entrant-interruptions", "enum", check_reentrant, cases=reentrant_cases, exhaustive=True),
     Part("random-histories", "hyp", check, strategy=history_strategy,
          examples={"quick": 300, "thorough": 12000}, shards={"quick": 4, "thorough": 16}),
 ]
